@@ -98,7 +98,7 @@ package db
 // issuer's current artifact (private key, subject-public-key bits, and its certificate's SUBJECT as issuer DN), or
 // the entity's own for roots; the new artifact carries the signed certificate, the context's key and the stored request.
 //@ func GenerateArtifacts returns (art, err)
-//@   props C01 C14 C20
+//@   props C01 C14 C20 C10
 //@   uses db.smt2 x509.smt2 keys.smt2
 //@   let S = DbState(backend)
 //@   let CFG = typed(dbCfg(S, alias), "*gopki/generator/config.CertificateContent")
@@ -112,8 +112,9 @@ package db
 //@   atcall @C14 gopki/generator.BuildCertBody dbArt(S, alias) == 0 ==> prk == nil && req == nil
 //@   ensures !called("gopki/generator.SignCertBody", 1) ==> err != nil
 //@   ensures err != nil ==> art == nil
-//@   ensures @C01,C14 called("gopki/generator.SignCertBody", 1) ==> err == nil ==> art != nil && fresh(art) && art.Certificate == callres("gopki/generator.SignCertBody", 1, 0) && art.Certificate != nil && art.PrivateKey == CTX.PrivateKey
-//@   ensures @C14 called("gopki/generator.SignCertBody", 1) ==> err == nil ==> art.Request == (if dbArt(S, alias) != 0 then old(SART.Request) else nil)
+//@   ensures @C01,C14,C10 called("gopki/generator.SignCertBody", 1) ==> err == nil ==> art != nil && fresh(art) && art.Certificate == callres("gopki/generator.SignCertBody", 1, 0) && art.Certificate != nil && art.PrivateKey == CTX.PrivateKey
+// (C10: what is exported holds the key material that was there before, so the next run does not see it as missing)
+//@   ensures @C14,C10 called("gopki/generator.SignCertBody", 1) ==> err == nil ==> art.Request == (if dbArt(S, alias) != 0 then old(SART.Request) else nil)
 
 // BulkUpdate: changes are applied in list order; every file written is the artifact file of a listed alias (given
 // that the listed aliases exist, which planning guarantees); the first failing step ends the run with its error.
